@@ -30,6 +30,7 @@ type Engine struct {
 	needBand    bool
 	needStrLess bool
 	needVarint  bool
+	needMapHas  bool
 	needApplyRB bool
 	needUnicode bool
 	applies     map[string]string // function key -> spec function giving its value as a predicate
@@ -465,6 +466,12 @@ func (e *Engine) prelude() string {
 			b.WriteString(ax + "\n")
 		}
 	}
+	if needElemPtr {
+		b.WriteString("(declare-fun elemptr (Int Int) Int)\n(assert (forall ((b Int) (i Int)) (! (< 4611686018427387904 (elemptr b i)) :pattern ((elemptr b i)))))\n")
+	}
+	if e.needMapHas {
+		fmt.Fprintf(&b, "(declare-fun maphas (Int %s Int Int) Bool)\n", sAI)
+	}
 	if e.needVarint {
 		// little-endian base-128 value of the n-byte varint at a[o..]
 		var terms []string
@@ -582,4 +589,44 @@ func (e *Engine) reaches(from, to *ssa.Function) bool {
 		return false
 	}
 	return dfs(from)
+}
+
+func (e *Engine) isImmutable(family string) bool {
+	for _, im := range e.cs.Immutables {
+		if strings.HasPrefix(family, im.Prefix) {
+			return true
+		}
+	}
+	return false
+}
+
+// checkImmutables scans the package for stores into families declared immutable.
+func (e *Engine) checkImmutables() error {
+	if len(e.cs.Immutables) == 0 {
+		return nil
+	}
+	dummy := e.newFnCtx(nil, &FuncContract{Key: "scan"})
+	for key, fn := range e.funcs {
+		for _, b := range fn.Blocks {
+			for _, in := range b.Instrs {
+				st, ok := in.(*ssa.Store)
+				if !ok {
+					continue
+				}
+				if _, isField := st.Addr.(*ssa.FieldAddr); !isField {
+					continue
+				}
+				if freshRoot(st.Addr) {
+					continue // initialisation of an object allocated right here
+				}
+				fam := dummy.staticFamily(st.Addr)
+				for _, im := range e.cs.Immutables {
+					if strings.HasPrefix(fam, im.Prefix) && key != im.Except {
+						return fmt.Errorf("immutable %s: %s stores to %s at %s", im.Prefix, key, fam, e.prog.Fset.Position(st.Pos()))
+					}
+				}
+			}
+		}
+	}
+	return nil
 }
